@@ -25,6 +25,9 @@ pub struct Case {
   /// (severity flag, ids) ; empty ids = bare flag
   pub overrides: Vec<(String, Vec<String>)>,
   pub filter: Option<String>,
+  /// all rules in one file given with `scan -r` instead of the project's rule directory
+  #[serde(default)]
+  pub rule_file: bool,
 }
 
 const LANGS15: &[(&str, &str, &str)] = &[
@@ -57,6 +60,8 @@ const GLOBS: &[&str] = &[
   "*.{js,ts}", "**/*.{py,rs}", "src/[ab]*", "**/[!a]*.go", "src/*.js", "*.py", "lib/*", "**/util.?s", "**/v2/**", "src/deep/a.js", "*/a.*",
   // escaped metacharacters (a directory named `[id]`) next to the unescaped class
   "app/\\[id\\]/**", "**/\\[id\\]/*.js", "app/[id]/**", "app/\\[*", "app/**/\\?.js", "**/a\\.*",
+  // a leading `./` means nothing
+  "./src/**", "./src/*.js", "./lib/b.ts", "./**/*.py",
 ];
 
 #[derive(Clone, Debug)]
@@ -151,6 +156,7 @@ pub fn interpret(ch: &Choice, _st: &mut Stats) -> Option<Case> {
     rules,
     language_globs: language_globs.into_iter().collect(),
     overrides,
+    rule_file: filter.is_none() && ch.files.len() % 3 == 0,
     filter,
   })
 }
@@ -159,7 +165,7 @@ pub fn interpret(ch: &Choice, _st: &mut Stats) -> Option<Case> {
 /// `**/` prefix, `/**` suffix, `/**/` infix, `{a,b}`, `[..]`, `[!..]`).
 pub fn glob_to_regex(glob: &str) -> regex::Regex {
   let mut re = String::from("^");
-  let b: Vec<char> = glob.chars().collect();
+  let b: Vec<char> = glob.strip_prefix("./").unwrap_or(glob).chars().collect();
   let mut i = 0;
   while i < b.len() {
     let rest: String = b[i..].iter().collect();
@@ -243,10 +249,17 @@ pub fn check(case: &Case, st: &mut Stats) -> CheckResult {
   if !case.language_globs.is_empty() {
     cfg.push_str("languageGlobs:\n");
     for (l, gs) in &case.language_globs {
-      cfg.push_str(&format!("  {l}: [{}]\n", gs.iter().map(|g| format!("'{g}'")).collect::<Vec<_>>().join(", ")));
+      let list = |gs: &[String]| gs.iter().map(|g| format!("'{g}'")).collect::<Vec<_>>().join(", ");
+      if gs.len() >= 2 {
+        // the globs of one language under two spellings of its name
+        cfg.push_str(&format!("  {l}: [{}]\n  {}: [{}]\n", list(&gs[..1]), l.to_lowercase(), list(&gs[1..])));
+      } else {
+        cfg.push_str(&format!("  {l}: [{}]\n", list(gs)));
+      }
     }
   }
   dir.write("sgconfig.yml", cfg.as_bytes());
+  let mut all_rules: Vec<String> = vec![];
   for (i, r) in case.rules.iter().enumerate() {
     let mut y = format!("id: {}\nlanguage: {}\nmessage: found\n{}", r.id, r.lang, rule_body(&r.lang));
     if let Some(s) = &r.severity {
@@ -259,7 +272,14 @@ pub fn check(case: &Case, st: &mut Stats) -> CheckResult {
     if let Some(f) = &r.ignores {
       y.push_str(&format!("ignores: [{}]\n", list(f)));
     }
-    dir.write(&format!("rules/r{i}.yml"), y.as_bytes());
+    if case.rule_file {
+      all_rules.push(y);
+    } else {
+      dir.write(&format!("rules/r{i}.yml"), y.as_bytes());
+    }
+  }
+  if case.rule_file {
+    dir.write("all.yml", all_rules.join("---\n").as_bytes());
   }
   for f in &case.files {
     // every file contains a trigger in its own language (foreign files: JS-looking text)
@@ -299,6 +319,10 @@ pub fn check(case: &Case, st: &mut Stats) -> CheckResult {
   let want_error_exit = expected.iter().any(|(_, _, s)| s == "error");
   // ---- run
   let mut args: Vec<String> = vec!["scan".into(), "--json=stream".into()];
+  if case.rule_file {
+    args.extend(["-r".to_string(), "all.yml".into()]);
+    st.label("rules_given_with_-r");
+  }
   for (s, ids) in &case.overrides {
     if ids.is_empty() {
       args.push(format!("--{s}"));
@@ -393,7 +417,7 @@ pub fn check(case: &Case, st: &mut Stats) -> CheckResult {
 pub fn run(cfg: &RunCfg) -> i32 {
   let mut report = Report::new(
     cfg,
-    "case = project (sgconfig.yml with optional languageGlobs for foreign extensions, 1-6 rule files for JavaScript/TypeScript/Python/Rust/Go with severity hint|info|warning|error|off|absent and optional files / ignores lists drawn from 26 glob forms: **/*.ext, dir/**, dir/**/*.ext, exact paths, **/name.*, braces, classes, negated classes, ?, and forms where * must cross /), 3-15 files in nested directories with native and foreign extensions, each containing a trigger in its own language; CLI overrides --error/--warning/--info/--hint/--off bare or per id, --filter. Expected (file, rule, severity) set from O-glob (documented globset syntax as a regex) + O-severity; compared with scan --json=stream and the exit status. evaluations = CLI runs. Non-trivial = distinct case where rules are applied to some files and withheld from others by language and by glob.",
+    "case = project (sgconfig.yml with optional languageGlobs for foreign extensions, 1-6 rule files for JavaScript/TypeScript/Python/Rust/Go with severity hint|info|warning|error|off|absent and optional files / ignores lists drawn from 36 glob forms (also escaped metacharacters and a leading `./`), in a third of the unfiltered cases given as one file with `scan -r`; a language's languageGlobs split over two spellings of its name; **/*.ext, dir/**, dir/**/*.ext, exact paths, **/name.*, braces, classes, negated classes, ?, and forms where * must cross /), 3-15 files in nested directories with native and foreign extensions, each containing a trigger in its own language; CLI overrides --error/--warning/--info/--hint/--off bare or per id, --filter. Expected (file, rule, severity) set from O-glob (documented globset syntax as a regex) + O-severity; compared with scan --json=stream and the exit status. evaluations = CLI runs. Non-trivial = distinct case where rules are applied to some files and withheld from others by language and by glob.",
   );
   report.assume("invoked from the project root, non-interactive; one bare override at most and each rule id in at most one per-id flag (the property does not order conflicting flags)");
   report.assume("languageGlobs map each foreign extension to one language (conflicting maps are C13's subject)");
